@@ -45,6 +45,7 @@ type Event struct {
 	Seq    int
 	Depth  int
 	InFn   *ssa.Function // function whose body contains the instruction
+	Binds  map[string]*Term // contents of closure-captured cells at call time (key: alloc term key)
 }
 
 type Summary struct {
@@ -639,6 +640,20 @@ func (e *Engine) doCall(s *state, fr *frame, v *ssa.Call, c *ssa.CallCommon) boo
 	ev := Event{Kind: "call", Callee: d.callee, Fn: d.sfn, Recv: d.recv, Args: d.args, Res: res, Pos: v.Pos(), Ctx: fr.ctx, Depth: fr.depth, InFn: fr.fn}
 	if d.closure != nil {
 		ev.Args = append([]*Term{d.closure}, ev.Args...)
+	}
+	for _, a := range ev.Args {
+		if a != nil && a.Kind == "closure" {
+			if ev.Binds == nil {
+				ev.Binds = map[string]*Term{}
+			}
+			for _, b := range a.Args {
+				if b != nil && b.Kind == "alloc" {
+					if v, ok := s.mem[b.key]; ok {
+						ev.Binds[b.key] = v
+					}
+				}
+			}
+		}
 	}
 	s.emit(ev)
 	// havoc memory reachable through address arguments of opaque calls
